@@ -53,4 +53,6 @@ S55 C13 quick err_9$
 S56 C12 quick getIcosahedronFaces_glue$
 S57 C05 quick k1_gridDisksUnsafe_r0$
 S58 C10 quick sum_edge$
+S59 C12 quick gridDiskDistancesSafe_r0_k1$
+S61 C17 quick polyexp_h0$
 T
